@@ -43,14 +43,14 @@ Qed.
 (* graph_ok as facts *)
 Record gok (G : graph) : Prop := {
   gok_self : forall f, In f G -> find_file G (vf_path f) = Some f;
-  gok_closed : forall f p pub weak, In f G -> In (p, pub, weak) (vf_imports f) -> exists g, find_file G p = Some g }.
+  gok_closed : forall f p pub, In f G -> In (p, pub) (vf_imports f) -> exists g, find_file G p = Some g }.
 
 Lemma graph_ok_gok G : graph_ok G = true -> gok G.
 Proof.
   unfold graph_ok. intros H. apply andb_true_iff in H. destruct H as [H1 H2]. constructor.
   - intros f Hf. now apply find_file_nodup.
-  - intros f p pub weak Hf Hp. rewrite forallb_forall in H2. specialize (H2 f Hf). rewrite forallb_forall in H2.
-    specialize (H2 (p, pub, weak) Hp). cbn [fst] in H2. destruct (find_file G p); [eauto|discriminate].
+  - intros f p pub Hf Hp. rewrite forallb_forall in H2. specialize (H2 f Hf). rewrite forallb_forall in H2.
+    specialize (H2 (p, pub) Hp). cbn [fst] in H2. destruct (find_file G p); [eauto|discriminate].
 Qed.
 
 Lemma filter_len_le {A} (p : A -> bool) l : (length (filter p l) <= length l)%nat.
@@ -62,10 +62,10 @@ Section Visit.
   Hypothesis OK : gok G.
 
   (* the loop over the imports, as a function of its own *)
-  Fixpoint iloop (fuel' : nat) (po : bool) (checked' : list N) (imps : list (N * bool * bool)) : vres :=
+  Fixpoint iloop (fuel' : nat) (po : bool) (checked' : list N) (imps : list (N * bool)) : vres :=
     match imps with
     | [] => VNotFound
-    | (p, isPublic, _) :: r =>
+    | (p, isPublic) :: r =>
       if po && negb isPublic then iloop fuel' po checked' r
       else match find_file G p with
            | None => VPanic
@@ -86,7 +86,7 @@ Section Visit.
          end.
   Proof.
     cbn [visit]. destruct (memN (vf_path f) checked); [reflexivity|]. destruct (fn f); [reflexivity|].
-    induction (vf_imports f) as [|[[p b] w] r IH]; cbn [iloop]; [reflexivity|].
+    induction (vf_imports f) as [|[p b] r IH]; cbn [iloop]; [reflexivity|].
     destruct (po && negb b); [exact IH|]. destruct (find_file G p); [|reflexivity].
     destruct (visit G fn fuel' true (checked ++ [vf_path f]) v); try reflexivity. exact IH.
   Qed.
@@ -95,21 +95,21 @@ Section Visit.
   Definition edge_po (po : bool) (a d : N) : Prop := if po then pub_edge G a d else direct_import G a d.
 
   Lemma pub_direct a d : pub_edge G a d -> direct_import G a d.
-  Proof. intros (f & w & Hf & Hi). exists f, true, w. auto. Qed.
+  Proof. intros (f & Hf & Hi). exists f, true. auto. Qed.
 
   (* ---- soundness: whatever is found is defined in a file of the visible set ---- *)
   Lemma iloop_found fuel' po checked' imps p e : iloop fuel' po checked' imps = VFound p e ->
-    exists q pub weak g, In (q, pub, weak) imps /\ (po = true -> pub = true) /\ find_file G q = Some g /\
+    exists q pub g, In (q, pub) imps /\ (po = true -> pub = true) /\ find_file G q = Some g /\
                     visit G fn fuel' true checked' g = VFound p e.
   Proof.
-    induction imps as [|[[q b] w] r IH]; cbn [iloop]; [discriminate|].
+    induction imps as [|[q b] r IH]; cbn [iloop]; [discriminate|].
     destruct (po && negb b) eqn:Eb.
-    - intros H. destruct (IH H) as (q' & pub & w' & g & Hin & Hp & Hf & Hv). exists q', pub, w', g. repeat split; auto. now right.
+    - intros H. destruct (IH H) as (q' & pub & g & Hin & Hp & Hf & Hv). exists q', pub, g. repeat split; auto. now right.
     - destruct (find_file G q) as [g|] eqn:Ef; [|discriminate].
       destruct (visit G fn fuel' true checked' g) eqn:Ev; intros H; try discriminate.
-      + injection H as <- <-. exists q, b, w, g. repeat split; auto; [now left|].
+      + injection H as <- <-. exists q, b, g. repeat split; auto; [now left|].
         intros ->. cbn [andb] in Eb. now apply negb_false_iff in Eb.
-      + destruct (IH H) as (q' & pub & w' & g' & Hin & Hp & Hf & Hv). exists q', pub, w', g'. repeat split; auto. now right.
+      + destruct (IH H) as (q' & pub & g' & Hin & Hp & Hf & Hv). exists q', pub, g'. repeat split; auto. now right.
   Qed.
 
   Lemma visit_sound : forall fuel po checked f p e,
@@ -120,13 +120,13 @@ Section Visit.
     induction fuel as [|fuel IH]; intros po checked f p e Hf; [discriminate|]. rewrite visit_S.
     destruct (memN (vf_path f) checked); [discriminate|]. destruct (fn f) as [e0|] eqn:Efn.
     - intros H. injection H as <- <-. exists f. auto.
-    - intros H. apply iloop_found in H. destruct H as (q & pub & wk & g' & Hin & Hp & Hfq & Hv).
+    - intros H. apply iloop_found in H. destruct H as (q & pub & g' & Hin & Hp & Hfq & Hv).
       pose proof (find_file_some G q g' Hfq) as [Hg' Hpath]. subst q.
       destruct (IH true _ g' p e Hfq Hv) as (g & Hg & Hfn & Hr).
       exists g. repeat split; auto. right. exists (vf_path g'). split.
       + unfold edge_po. destruct po.
-        * rewrite (Hp eq_refl) in Hin. exists f, wk. auto.
-        * exists f, pub, wk. auto.
+        * rewrite (Hp eq_refl) in Hin. exists f. auto.
+        * exists f, pub. auto.
       + destruct Hr as [->|(d & Hd & Hr)].
         * apply reach_refl. intros [].
         * apply reach_step with (q := d); [intros []|exact Hd|exact Hr].
@@ -153,16 +153,16 @@ Section Visit.
   Qed.
 
   Lemma iloop_notfound fuel' po checked' imps : iloop fuel' po checked' imps = VNotFound ->
-    forall q pub weak, In (q, pub, weak) imps -> (po = true -> pub = true) ->
+    forall q pub, In (q, pub) imps -> (po = true -> pub = true) ->
     exists g, find_file G q = Some g /\ visit G fn fuel' true checked' g = VNotFound.
   Proof.
-    induction imps as [|[[q0 b] w] r IH]; cbn [iloop]; [intros _ q pub weak []|].
+    induction imps as [|[q0 b] r IH]; cbn [iloop]; [intros _ q pub []|].
     destruct (po && negb b) eqn:Eb.
-    - intros H q pub weak [Heq|Hin] Hp; [|now apply (IH H q pub weak)]. injection Heq as -> -> ->.
+    - intros H q pub [Heq|Hin] Hp; [|now apply (IH H q pub)]. injection Heq as -> ->.
       destruct po; [|discriminate]. rewrite (Hp eq_refl) in Eb. discriminate.
     - destruct (find_file G q0) as [g|] eqn:Ef; [|discriminate].
       destruct (visit G fn fuel' true checked' g) eqn:Ev; intros H; try discriminate.
-      intros q pub weak [Heq|Hin] Hp; [|now apply (IH H q pub weak)]. injection Heq as -> -> ->. eauto.
+      intros q pub [Heq|Hin] Hp; [|now apply (IH H q pub)]. injection Heq as -> ->. eauto.
   Qed.
 
   Lemma visit_complete : forall fuel po checked f,
@@ -174,12 +174,12 @@ Section Visit.
     induction fuel as [|fuel IH]; intros po checked f Hf Hnc; [discriminate|]. rewrite visit_S.
     apply memN_false in Hnc. rewrite Hnc. destruct (fn f) as [e0|] eqn:Efn; [discriminate|].
     intros H. split; [reflexivity|]. intros q Hq g Hr.
-    assert (Himp : exists pub weak, In (q, pub, weak) (vf_imports f) /\ (po = true -> pub = true)).
+    assert (Himp : exists pub, In (q, pub) (vf_imports f) /\ (po = true -> pub = true)).
     { unfold edge_po in Hq. destruct po.
-      - destruct Hq as (f0 & wk & Hf0 & Hin). rewrite Hf in Hf0. injection Hf0 as <-. exists true, wk. auto.
-      - destruct Hq as (f0 & pub & wk & Hf0 & Hin). rewrite Hf in Hf0. injection Hf0 as <-. exists pub, wk. split; [assumption|discriminate]. }
-    destruct Himp as (pub & wk & Hin & Hp).
-    destruct (iloop_notfound _ _ _ _ H q pub wk Hin Hp) as (g' & Hfq & Hv).
+      - destruct Hq as (f0 & Hf0 & Hin). rewrite Hf in Hf0. injection Hf0 as <-. exists true. auto.
+      - destruct Hq as (f0 & pub & Hf0 & Hin). rewrite Hf in Hf0. injection Hf0 as <-. exists pub. split; [assumption|discriminate]. }
+    destruct Himp as (pub & Hin & Hp).
+    destruct (iloop_notfound _ _ _ _ H q pub Hin Hp) as (g' & Hfq & Hv).
     pose proof (find_file_some G q g' Hfq) as [Hg' Hpath]. subst q.
     assert (Hnq : ~ In (vf_path g') (checked ++ [vf_path f])) by (inversion Hr; assumption).
     destruct (IH true _ g' Hfq Hnq Hv) as [Hfn Hrest].
@@ -219,10 +219,10 @@ Section Visit.
     assert (Hrem : (remaining (checked ++ [vf_path f]) < fuel)%nat).
     { pose proof (filter_decr G checked f Hf Em). unfold remaining in *. lia. }
     assert (Hsub : forall imps, incl imps (vf_imports f) -> normal (iloop fuel po (checked ++ [vf_path f]) imps)).
-    { induction imps as [|[[q b] w] r IHr]; intros Hincl; cbn [iloop]; [split; discriminate|].
+    { induction imps as [|[q b] r IHr]; intros Hincl; cbn [iloop]; [split; discriminate|].
       assert (Hr : incl r (vf_imports f)) by (intros x Hx; apply Hincl; now right).
       destruct (po && negb b); [now apply IHr|].
-      destruct (gok_closed G OK f q b w Hf (Hincl _ (or_introl eq_refl))) as (g & Hg). rewrite Hg.
+      destruct (gok_closed G OK f q b Hf (Hincl _ (or_introl eq_refl))) as (g & Hg). rewrite Hg.
       pose proof (find_file_some G q g Hg) as [HgG _].
       pose proof (IH true (checked ++ [vf_path f]) g HgG Hrem) as [N1 N2].
       destruct (visit G fn fuel true (checked ++ [vf_path f]) g); try (split; discriminate); [now apply IHr|contradiction|contradiction]. }
@@ -239,7 +239,7 @@ Section Visit.
     induction fuel as [|fuel IH]; intros po checked f r H Hr fuel2 Hle; [cbn in H; congruence|].
     destruct fuel2 as [|fuel2]; [lia|]. rewrite visit_S in *.
     destruct (memN (vf_path f) checked); [assumption|]. destruct (fn f); [assumption|].
-    revert H. generalize (vf_imports f). induction l as [|[[q b] w] l IHl]; cbn [iloop]; [auto|].
+    revert H. generalize (vf_imports f). induction l as [|[q b] l IHl]; cbn [iloop]; [auto|].
     destruct (po && negb b); [exact IHl|]. destruct (find_file G q) as [g|]; [|auto].
     destruct (visit G fn fuel true (checked ++ [vf_path f]) g) eqn:Ev; intros H.
     - rewrite (IH true _ g _ Ev) by (discriminate || lia). assumption.
@@ -316,11 +316,12 @@ Lemma visit_unweak G q : forall fuel po checked f,
   visit (unweak G) (query_fn q) fuel po checked (unweak_file f) = visit G (query_fn q) fuel po checked f.
 Proof.
   induction fuel as [|fuel IH]; intros po checked f; [reflexivity|].
-  rewrite !visit_S. cbn [unweak_file vf_path vf_imports].
-  destruct (memN (vf_path f) checked); [reflexivity|].
+  rewrite !visit_S.
   assert (Eq : query_fn q (unweak_file f) = query_fn q f) by (destruct q; reflexivity). rewrite Eq.
+  cbn [unweak_file vf_path vf_imports].
+  destruct (memN (vf_path f) checked); [reflexivity|].
   destruct (query_fn q f); [reflexivity|].
-  induction (vf_imports f) as [|[[p b] w] r IHr]; cbn [unweak_imps map iloop fst snd]; [reflexivity|].
+  induction (vf_imports f) as [|[p b] r IHr]; cbn [iloop]; [reflexivity|].
   destruct (po && negb b); [exact IHr|].
   rewrite find_file_unweak. destruct (find_file G p) as [g|]; cbn [option_map]; [|reflexivity].
   rewrite IH. destruct (visit G (query_fn q) fuel true (checked ++ [vf_path f]) g); try reflexivity. exact IHr.
@@ -338,17 +339,17 @@ Proof.
 Qed.
 
 (* ---- an example with a cycle through public imports:
-   0 imports 1 (import weak); 1 publicly imports 2; 2 imports 1 (public and weak flag both set) and 3 (weak, not public).
+   0 imports 1 (import weak); 1 publicly imports 2; 2 imports 1 (public, weak flag set too) and 3 (weak, not public).
    file 2 defines name 5 and extension (9, 100) named 6; file 3 defines name 7 ---- *)
 Definition ex_G : graph :=
-  [mkV 0 [(1, false, true)] [] []; mkV 1 [(2, true, false)] [4] []; mkV 2 [(1, true, true); (3, false, true)] [5] [(9, 100%Z, 6)];
-   mkV 3 [] [7] []]%N.
+  [mkV 0 [(1, false)] [] [] [1]; mkV 1 [(2, true)] [4] [] []; mkV 2 [(1, true); (3, false)] [5] [(9, 100%Z, 6)] [1; 3];
+   mkV 3 [] [7] [] []]%N.
 
 Lemma visibility_example :
   graph_ok ex_G = true /\
-  resolver_find ex_G (mkV 0 [(1, false, true)] [] [])%N (QName 5) = VFound 2 5 /\
-  resolver_find ex_G (mkV 0 [(1, false, true)] [] [])%N (QName 7) = VNotFound /\
-  resolver_find ex_G (mkV 0 [(1, false, true)] [] [])%N (QExt 9 100) = VFound 2 6 /\
-  resolver_find ex_G (mkV 0 [(1, false, true)] [] [])%N (QPath 3) = VNotFound /\
-  resolver_find ex_G (mkV 2 [(1, true, true); (3, false, true)] [5] [(9, 100%Z, 6)])%N (QPath 3) = VFound 3 3.
+  resolver_find ex_G (mkV 0 [(1, false)] [] [] [1])%N (QName 5) = VFound 2 5 /\
+  resolver_find ex_G (mkV 0 [(1, false)] [] [] [1])%N (QName 7) = VNotFound /\
+  resolver_find ex_G (mkV 0 [(1, false)] [] [] [1])%N (QExt 9 100) = VFound 2 6 /\
+  resolver_find ex_G (mkV 0 [(1, false)] [] [] [1])%N (QPath 3) = VNotFound /\
+  resolver_find ex_G (mkV 2 [(1, true); (3, false)] [5] [(9, 100%Z, 6)] [1; 3])%N (QPath 3) = VFound 3 3.
 Proof. repeat split; vm_compute; reflexivity. Qed.
